@@ -457,6 +457,8 @@ func (it *interp) expr(n *N, env *Env) (any, compl) {
 		return NilV{}, normal
 	case "var":
 		return it.cell(n.S, env, false).V, normal
+	case "paren":
+		return it.expr(n.C[0], env)
 	case "not":
 		v, c := it.expr(n.C[0], env)
 		if c.kind != cNormal {
